@@ -511,7 +511,9 @@ def stepC (s : StateC) : Prim → Except EditErr StateC
       | some (some (.text t)) => .ok { s with groups := s.groups.set a.g (some (.text { t with s := str })) }
       | _ => .error .badAddress
     | some (p, i) => modifyGroupC s a.g (fun e => modifyAtE (applyChildOp (.setContent i str)) e p)
-  | .merge a => modifyGroupC s a.g (fun e => modifyAtE (fun x => .ok (mergeEl x)) e a.path)
+  -- `merge_text_nodes` exists on tag nodes only: addressing a comment / PI is an address error
+  | .merge a => modifyGroupC s a.g (fun e => modifyAtE
+      (fun x => match x with | .tag .. => .ok (mergeEl x) | _ => .error .badAddress) e a.path)
   | .newTag ns name attrs =>
     .ok { groups := s.groups ++ [some (.el (.tag s.nextId ns name attrs [] []))], nextId := s.nextId + 1 }
   | .newComment str => .ok { groups := s.groups ++ [some (.el (.comment s.nextId str))], nextId := s.nextId + 1 }
